@@ -250,5 +250,16 @@ int main ()
     for (unsigned i=0;i<3;i++) O.put (Vector<3,Rat>(Vector<3,Rat>(b.get_basis_vector(i)) - Vector<3,Rat>(f.get_basis_vector(i))));
     auto x=A.vec<3>(); O.put (Vector<3,Rat>(b.get_in(x) - f.get_in(x))); O.put (Vector<3,Rat>(b.get_out(x) - f.get_out(x))); };
 
+  // several objects used in turn: a setting on one object takes effect whatever was last done to another object (and to a float
+  // instance).  Histories: <k> then k times <object 0|1> <setting>; output: object 0 and object 1 against fresh objects given
+  // their own last setting
+  OP("o.c14.twoobj") { unsigned n=A.nat(); Basis<double> obj[2]; Basis<double> fresh[2]; Basis<float> side;
+    for (unsigned i=0;i<n;i++) { unsigned w = A.nat() % 2; Args L = A; do_basis_op (obj[w], A); Basis<double> f; do_basis_op (f, L); fresh[w] = f;
+      side.set_basis (0.125 * i, 0.25); }
+    for (int w=0;w<2;w++) { O.put (Rat((int) obj[w].get_basis() - (int) fresh[w].get_basis()));
+      O.put (Rat(Rat(obj[w].get_orientation()) - Rat(fresh[w].get_orientation()))); O.put (Rat(Rat(obj[w].get_ellipticity()) - Rat(fresh[w].get_ellipticity())));
+      for (unsigned i=0;i<3;i++) O.put (Vector<3,Rat>(Vector<3,Rat>(obj[w].get_basis_vector(i)) - Vector<3,Rat>(fresh[w].get_basis_vector(i)))); }
+    auto x=A.vec<3>(); for (int w=0;w<2;w++) { O.put (Vector<3,Rat>(obj[w].get_in(x) - fresh[w].get_in(x))); O.put (Vector<3,Rat>(obj[w].get_out(x) - fresh[w].get_out(x))); } };
+
   return run_stream (ops);
 }
